@@ -150,6 +150,7 @@ def run_go_part(prop, part, tier, seed, builddir, reportdir):
         "VERIF_REPORT_DIR": reportdir,
         "VERIF_DIR": VERIF,
         "VERIF_SCRATCH": builddir,
+        "VERIF_REPO_DIR": REPO,
     }
     if part.get("synctest"):
         extra["GOEXPERIMENT"] = "synctest"
@@ -245,6 +246,12 @@ def run_property(prop, tier, seed, keep=False):
         return 2
     spec = REGISTRY[prop]
     t0 = time.time()
+    # Witness files of an earlier run with the same parameters are stale.
+    for old in glob.glob(os.path.join(VERIF, "replays", "%s-%s-seed%d-*.json" % (prop, tier, seed))):
+        try:
+            os.remove(old)
+        except OSError:
+            pass
     builddir = scratch_root()
     reportdir = os.path.join(builddir, "reports")
     os.makedirs(reportdir)
